@@ -97,6 +97,15 @@ def variants(kind):
             "do_update": [lambda q, Q: q.do_update("a"), lambda q, Q: q.do_update("a", sq(Q))],
             "returning": [lambda q, Q: _returning(q, t.a), lambda q, Q: _returning(q, "*"), lambda q, Q: _returning(q, "id", "a")],
         }
+    if kind == "setop":
+        return {
+            "orderby": [lambda q, Q: q.orderby(t.a.as_("x")), lambda q, Q: q.orderby(t.a, t.b), lambda q, Q: q.orderby(sq(Q))],
+            "limit": [lambda q, Q: q.limit(0)],
+            "offset": [lambda q, Q: q.offset(0)],
+            # (an ordered, limited operand only where the dialect brackets operands)
+            "union2": [lambda q, Q: q.intersect(Q.from_(u).select(u.b).orderby(u.b).limit(9) if Q.__name__ not in ("MySQLQuery", "SQLLiteQuery")
+                                                 else Q.from_(u).select(u.b))],
+        }
     if kind == "create":
         return {
             "columns": [lambda q, Q: q.columns(r["Column"]("id", "INT"), r["Column"]("a", "INT"))],
@@ -186,7 +195,24 @@ def create_calls():
     }
 
 
+def setop_calls():
+    t, u = tabs()
+    v = R()["Table"]("v")
+    return {
+        "orderby": lambda q, Q: q.orderby(t.a),
+        "limit": lambda q, Q: q.limit(5),
+        "offset": lambda q, Q: q.offset(2),
+        "union2": lambda q, Q: q.union_all(Q.from_(v).select(v.a).where(v.b > 1)),
+    }
+
+
+def setop_base(Q):
+    t, u = tabs()
+    return Q.from_(t).select(t.a).where(t.b > 0).union(Q.from_(u).select(u.a))
+
+
 KINDS = {
+    "setop": (setop_base, setop_calls),
     "select": (lambda Q: Q.from_(tabs()[0]), select_calls),
     "update": (lambda Q: Q.update(tabs()[0]), update_calls),
     "delete": (lambda Q: Q.from_(tabs()[0]).delete(), delete_calls),
@@ -250,7 +276,7 @@ def cases(tier, seed, shard, nshards):
         alt = variants(kind)
         if not alt:
             continue
-        per = {"select": 2400, "insert": 900, "update": 600, "delete": 300, "create": 300}[kind] * (1 if tier == "quick" else 12)
+        per = {"select": 2400, "insert": 900, "update": 600, "delete": 300, "create": 300, "setop": 600}[kind] * (1 if tier == "quick" else 12)
         for d in DIALECT_CLASSES:
             for _ in range(per // nshards // 6 + 1):
                 size = rnd.randint(2, min(5, len(names)))
@@ -346,6 +372,10 @@ def order_table(kind, fam):
              "HAVING", "ORDER-BY"]
         o += ["OFFSET", "FETCH"] if fam in ("mssql", "oracle") else ["LIMIT", "OFFSET"]
         o += ["FOR-UPDATE"]
+    elif kind == "setop":
+        # one operand (or, behind the last set operator, the last operand and the set operation's own tail): which row-limiting
+        # idiom the tail uses is C09's subject, here only "each clause once, in order"
+        o = ["WITH", "SELECT", "FROM", "JOIN", "WHERE", "GROUP-BY", "HAVING", "ORDER-BY", "LIMIT", "OFFSET", "FETCH", "FOR-UPDATE"]
     elif kind == "update":
         if fam in ("postgresql", "sqlite"):
             o = ["WITH", "UPDATE", "SET", "FROM", "JOIN", "WHERE", "ORDER-BY", "LIMIT", "RETURNING"]
@@ -424,8 +454,27 @@ def wellformed(kind, d, calls, sql, mon):
     if b:
         mon.violation("%s:unbalanced:%s" % (kind, fam), "%s in %r" % (b, sql[:200]))
         return True
-    kws = clause_keywords(toks)
-    why = check_order(kind, fam, kws)
+    if kind == "setop":
+        # depth-0 segments between the set operators
+        segs, cur, depth = [], [], 0
+        for tk in toks:
+            if tk.kind == "PUNCT" and tk.text in "([":
+                depth += 1
+            elif tk.kind == "PUNCT" and tk.text in ")]":
+                depth -= 1
+            if depth == 0 and tk.kind == "WORD" and tk.value in ("UNION", "INTERSECT", "EXCEPT", "MINUS"):
+                segs.append(cur)
+                cur = []
+            else:
+                cur.append(tk)
+        segs.append(cur)
+        why = None
+        for seg in segs:
+            why = why or check_order(kind, fam, clause_keywords(seg))
+        kws = []
+    else:
+        kws = clause_keywords(toks)
+        why = check_order(kind, fam, kws)
     mon.count("clause_sequences_checked")
     if why:
         mon.violation("%s:clause-order:%s:%s" % (kind, why.split(" (")[0].replace(" ", "-"), fam), "%s: %r (calls %s)" % (why, sql[:260], calls))
